@@ -41,3 +41,20 @@ Theorem c02_refuted_served_then_rolled_back :
     acked_survive_b w5 [1; 2; 3] = true.
 Proof. exact figure8_served_then_rolled_back. Qed.
 Print Assumptions c02_refuted_served_then_rolled_back.
+
+(* "A write whose outcome is unknown to the client takes effect at most once", client side: the retry loop of the write
+   batch over the shard's write stream (Oxia.Client.WriteModel). For every sequence of attempt outcomes -- every status
+   code, any number of connection / send failures before, any way the stream breaks once the request is on the wire --
+   at most one stream.Send of the request succeeds: a request handed to the transport is never sent again (in-flight
+   failures reach the loop as io.EOF, which is not retriable); requests that were never sent may be retried. *)
+From Oxia.Client Require WriteModel WriteProofs.
+Theorem c02_write_sent_at_most_once : forall atts,
+  Oxia.Client.WriteModel.count_sent (Oxia.Client.WriteModel.write_path true atts) <= 1.
+Proof. exact Oxia.Client.WriteProofs.write_sent_at_most_once. Qed.
+Print Assumptions c02_write_sent_at_most_once.
+
+(* the shape of change this excludes: in-flight failures reported with the stream's (retriable) status *)
+Theorem c02_write_resent_without_eof_flattening_refuted :
+  exists atts, Oxia.Client.WriteModel.count_sent (Oxia.Client.WriteModel.write_path false atts) = 2.
+Proof. exact Oxia.Client.WriteProofs.write_resent_without_eof_flattening. Qed.
+Print Assumptions c02_write_resent_without_eof_flattening_refuted.
